@@ -1,20 +1,20 @@
 """C11 configuration: fitted models reproduce the reported statistics; early stopping keeps the right round."""
 
-# c11_early_stopping: sub-check weights exhaustive : random = 1 : 3 (harness/c11_early_stopping.cpp main()).
+# c11_early_stopping: sub-check weights exhaustive : random = 1 : 9 (harness/c11_early_stopping.cpp main()).
 #   The finite early-stopping space is cut into 160 chunks = {patience 1..4} x {with | without validation samples} x
 #   {"above epsilon" training value 1 | exactly epsilon} x {first symbol of the 10-symbol alphabet}; one generated case = one
 #   uniformly drawn chunk, walked completely (all continuations up to 8 calls without validation samples; with validation
 #   samples the tree is finite - every history stops by call 13 - and is walked to its leaves, vdepth 16).
-#   quick: 13 200 cases / 4 processes = 3 300 per process, 1/4 of them = 825 exhaustive cases per process, 3 300 in total
+#   quick: 33 000 cases / 4 processes = 8 250 per process, 1/10 of them = 825 exhaustive cases per process, 3 300 in total
 #   >= 20 x 160: P(some chunk never drawn) < 160 * exp(-20) < 1e-6; per-cell hit counts (16 cells of 10 chunks) are in the
 #   class histogram.  Independently of the generator, replays/C11/early-stopping-all-chunks.case walks all 160 chunks
 #   deterministically on every run (9 188 960 done() calls, ~1.5 s).
 CHECK = {
     "harnesses": [
-        {"exe": "c11_early_stopping", "flavour": "plain", "cases": (13200, 560000), "procs": (4, 4), "subs": ["exhaustive", "random"]},
-        {"exe": "c11_models", "flavour": "plain", "cases": (6000, 160000), "procs": (4, 8), "subs": ["linear", "gboost"]},
+        {"exe": "c11_early_stopping", "flavour": "plain", "cases": (33000, 400000), "procs": (4, 4), "subs": ["exhaustive", "random"]},
+        {"exe": "c11_models", "flavour": "plain", "cases": (6000, 80000), "procs": (4, 8), "subs": ["linear", "gboost"]},
     ],
-    "min_nontrivial": (3000, 60000),
+    "min_nontrivial": (8000, 100000),
     "timeout": (900, 7200),
     "rule": ("(a) early stopping: gboost::early_stopping_t driven like its caller does (rounds 0,1,2,... with wlearners.size() == round, never "
              "after a stop) against a reference monitor written from the statement (list of accepted rounds, best value, snapshot); after every "
@@ -42,8 +42,8 @@ CHECK = {
              "Non-trivial: exhaustive chunk whose first symbol does not stop; random history with >= 5 rounds, >= 2 accepted improvements and a "
              "stop or an improvement after waiting; fit with >= 2 folds whose validation error means are non-zero and pairwise different "
              "(classification: at least two different non-zero values) and, for boosting, a fold model whose optimum round is neither 0 nor "
-             "max_rounds. Distinct = distinct serialised cases (64-bit hash); the exhaustive sub-check has 80 distinct non-trivial cases by "
-             "construction."),
+             "max_rounds. Distinct = distinct serialised cases (64-bit hash); the exhaustive sub-check has 64 distinct non-trivial cases (chunks with >= 100 "
+             "done() calls) by construction."),
     "assumptions": [
         "the harness-side reference monitor, model composition and statistics (harness/c11_reference.h, c11_models.cpp) are correct",
         "lower-level API used as given: dataset_t::flatten/targets (C08), wlearner_t::predict (C10), loss_t::error/value (C09), splitter_t::split (C12)",
